@@ -435,6 +435,9 @@ pub fn run_inputs(opts: &Opts, only: Option<Vec<Vec<u8>>>) -> Run {
             Some(o) => o,
             None => {
                 run.fail("C03", "hang", format!("[{}] decoding did not finish within {} ms ({} input bytes)", label, deadline, bytes.len()), replay.clone());
+                // a decode call that does not finish on a small input regenerates (and buffers) far more than
+                // window + request + one block: also a C05 failure (F1 with >= 20 000 sequences shows up this way)
+                run.fail("C05", "hang_unbounded_expansion", format!("[{}] decoding {} input bytes did not finish within {} ms: regenerated data is not bounded by window + request + one block", label, bytes.len(), deadline), replay.clone());
                 // the worker thread cannot be killed and keeps burning CPU and memory: stop here, the
                 // process exit at the end of the engine run reaps it
                 run.notes.push("aborted after a hang: remaining inputs not run".into());
